@@ -59,7 +59,18 @@ def arith(ctx, op, a, b):
     if op == '**':
         return power(ctx, a, b)
     if op == '/':
-        return mk_num(zreal(a) / zreal(b))
+        q = zreal(a) / zreal(b)
+        if not _c(b) and ctx is not None and hasattr(ctx, 'axiom'):
+            # instantiated theorem of real arithmetic (helps the nonlinear solvers, adds no assumption):
+            # a >= 0 and b >= 1  =>  0 <= a / b <= a
+            key = ('div-bound', q.sexpr() if hasattr(q, 'sexpr') else str(q))
+            seen = getattr(ctx, '_div_axioms', None)
+            if seen is None:
+                seen = ctx._div_axioms = set()
+            if key not in seen and len(seen) < 64:
+                seen.add(key)
+                ctx.axiom(z3.Implies(z3.And(zreal(a) >= 0, zreal(b) >= 1), z3.And(q >= 0, q <= zreal(a))))
+        return mk_num(q)
     ta, tb = _pair(a, b)
     if op == '+':
         return mk_num(z3.simplify(ta + tb) if False else ta + tb)
